@@ -156,11 +156,17 @@ func sameMultiset(c *interp.Ctx, a, b []interp.Value) (bool, string) {
 // c05Oracle: the relational oracle between the optimised and unoptimised
 // outputs of one program.
 func c05Oracle(prog *Program) func(x *OracleCtx) *Violation {
+	return c05OracleS(prog.Atoms.Coded, func() []*Script { return scriptsOf(prog) })
+}
+
+// c05OracleS is c05Oracle for an explicit list of scripts (inline map scripts
+// have labels read off the output).
+func c05OracleS(coded bool, scripts func() []*Script) func(x *OracleCtx) *Violation {
 	return func(x *OracleCtx) *Violation {
-		ss := scriptsOf(prog)
+		ss := scripts()
 		var names []interp.Value
 		for _, s := range ss {
-			names = append(names, s.Name.Val)
+			names = append(names, s.NameValue())
 		}
 		isEntry := func(name interp.Value) bool {
 			for _, n := range names {
@@ -182,16 +188,15 @@ func c05Oracle(prog *Program) func(x *OracleCtx) *Violation {
 		if ro.Err.IsErr {
 			return nil
 		}
-		coded := prog.Atoms.Coded
 		go_, gn := BuildAsmGraph(x.C, ro.Out, isEntry, coded), BuildAsmGraph(x.C, rn.Out, isEntry, coded)
 		for _, s := range ss {
-			a, b := go_.EntryNode(x.C, s.Name.Val), gn.EntryNode(x.C, s.Name.Val)
+			a, b := go_.EntryNode(x.C, s.NameValue()), gn.EntryNode(x.C, s.NameValue())
 			if a == nil || b == nil {
 				return &Violation{Sub: "entry", Msg: "script entry label missing in one of the outputs"}
 			}
 			var st bisimStats
 			if m := Bisimulate(x.C, b, a, &st); m != nil {
-				return &Violation{Sub: "behaviour", Query: m.Query, Msg: fmt.Sprintf("script %s: optimised and unoptimised outputs behave differently: %s", s.Name.Placeholder(), m.Msg),
+				return &Violation{Sub: "behaviour", Query: m.Query, Msg: fmt.Sprintf("script %s: optimised and unoptimised outputs behave differently: %s", interp.ToString(s.NameValue()), m.Msg),
 					Detail: []string{"unoptimised does: " + m.RefOut, "optimised does: " + m.AsmOut, fmt.Sprintf("after events: %v", m.Trail)}}
 			}
 		}
@@ -236,6 +241,20 @@ func RunC05(env *Env, rep *Report) {
 		cs.Oracle = c05Oracle(cs.Prog)
 		cases = append(cases, cs)
 	}
+	// labels inside constructs that follow break / end / return (dead code)
+	for _, sh := range c04DeadCodeShapes() {
+		cs := c01Case(sh, "c05/"+ShString(sh))
+		cs.Oracle = c05Oracle(cs.Prog)
+		cases = append(cases, cs)
+	}
+	// files mixing script statements and inline map scripts
+	nmixed := 0
+	for _, mf := range mixedFiles(maxNodes - 1) {
+		mf := mf
+		cases = append(cases, &Case{Name: "c05/" + mf.name(), Prog: mf.prog, Variants: optVariants, Shape: mf.shape, NonTrivial: true,
+			Oracle: mf.wrap(c05OracleS(true, func() []*Script { return mf.scripts }))})
+		nmixed++
+	}
 	nflow := len(cases)
 	for m := 1; m <= maxLen; m++ {
 		for _, sh := range enumSwitchShapes(m, swBodies) {
@@ -273,7 +292,7 @@ func RunC05(env *Env, rep *Report) {
 	}
 	rep.Technique = "symbolic execution of the real parser and emitter under both optimize settings on one symbolic input (go/ssa) + SMT-discharged bisimulation between the two outputs + structural assertions on the output ropes"
 	rep.Explanation = "Bounded symbolic verification, not a proof. For every skeleton of the C01 (statement trees) and C03 (switch) families within the bounds, the real code is executed symbolically with -optimize on and off on the same symbolic input (all names symbolic). Asserted: (i) the two outputs are bisimilar from every script entry for every game state (SMT-discharged, runs of any length), (ii) they define the same user-visible labels and data lines, (iii) in neither output does a generated goto target the label on the very next line, (iv) every generated sub-label that is emitted is the operand of some jump or case."
-	rep.Bounds = map[string]interface{}{"statement_tree_max_nodes": maxNodes, "statement_tree_cases": nflow, "switch_max_length": maxLen, "switch_cases": len(cases) - nflow, "switch_bodies": swBodies, "switch_contexts": swContexts}
+	rep.Bounds = map[string]interface{}{"statement_tree_max_nodes": maxNodes, "statement_tree_cases": nflow, "mixed_file_cases": nmixed, "switch_max_length": maxLen, "switch_cases": len(cases) - nflow, "switch_bodies": swBodies, "switch_contexts": swContexts}
 	rep.Outside = []string{"shapes beyond the bounds", "programs with inline text / movements (their hoisting is C06; the data comparison here sees only what the families contain)"}
 	rep.Assumptions = []string{"assembly semantics of DESIGN.md §4.1", "a generated goto is one whose operand is <script>_<digits>; a generated sub-label is a label of that form"}
 	rep.Functions = []string{"optimizeChunkOrder", "renderChunks", "renderBranching", "renderBranchConditions", "getTailChunkID", "emitScriptStatement", "createIfStatementChunks", "createWhileStatementChunks", "createDoWhileStatementChunks", "createSwitchStatementChunks", "splitBooleanExpressionChunks", "renderLabel"}
